@@ -471,6 +471,10 @@ simcam_start(struct Camera* camera)
     self->streamer.is_running = 1;
     self->im.last_emitted_frame_id = -1;
     self->im.frame_id = -1;
+    // A trigger or frame request left over from before this run (stop and
+    // set fire the trigger themselves) must not count as one of this run.
+    self->software_trigger.triggered = 0;
+    self->im.frame_wanted = 0;
     TRACE("SIMULATED CAMERA: thread launch");
     CHECK(thread_create(&self->streamer.thread,
                         (void (*)(void*))simulated_camera_streamer_thread,
